@@ -284,7 +284,8 @@ def gen_history(r, name, kind="std"):
         create(0, big=True)
         d = vds[0]
         need = 1000000 // d.rs + 1
-        n1 = r.choice([need, need + 1, need + r.randrange(0, 6), max(1, need - 1)])
+        # need = the chunk size VSwrite picks; more than that many records go through the buffer in several pieces
+        n1 = r.choice([need + 1, need + 1, need + r.randrange(1, 6), need, max(1, need - 1)])
         do_write(0, d, n=n1, pos=0)
         if r.random() < 0.5:
             do_write(0, d, n=r.choice([1, 2, need]), pos=r.choice([0, d.nrec, d.nrec // 2]))
